@@ -194,7 +194,7 @@ fn buffered_sets(doc: &[crate::refmodel::Node]) -> Vec<Vec<u64>> {
 }
 
 fn run_one<T: SpecT>(ctx: &mut Ctx, rs: &RefSpec, input: &[u8], cfg: &Cfg, origin: &str) {
-    let d = || format!("{} input={} buffered=[{}]", origin, hex(input), cfg.buffered.iter().map(|x| format!("{:x}", x)).collect::<Vec<_>>().join(","));
+    let d = || format!("{} input={} buffered=[{}] cap={:?}", origin, hex(input), cfg.buffered.iter().map(|x| format!("{:x}", x)).collect::<Vec<_>>().join(","), cfg.cap);
     if !ctx.enter(&d) {
         return;
     }
@@ -235,13 +235,14 @@ pub fn run(ctx: &mut Ctx) {
     crate::spec::assert_spec_matches::<V>(&rs);
     let n = ctx.tier.pick(6, 7);
     let doc_nodes = ctx.tier.pick(4, 5);
-    ctx.meta("rule", "cases: byte streams parsed by the strict iterator from a slice; streams = every string over Σ up to length n, every document of T∘E (all known/unknown-size mixes, deep spines) and every single mutation (byte replaced by each Σ byte, byte deleted, truncation, every mid-document suffix at an element boundary), and documents longer than the 64 KiB buffer with long headers around the buffer boundary, whole and cut near the boundary; and over the second derived specification W (placeholder paths, a global master, a bounded global leaf): every string over Σ_W up to length n-1 and every document with all single mutations; every unmutated document of V and W additionally with each master id present, and all of them, buffered (a Full item counts as its Start, children and End; its children have no offsets, so only the structural rules apply inside it). Oracle: NestingChecker replays the Ok items: End matches innermost open Start or the next implied ancestor; ids known; ref_path_match(path, open chain) once the first non-global element fixed the position; element extents (header decoded by RefCodec at the reported offset) inside every enclosing known-size master; known-size End neither late nor early (early only at end of input); all masters closed at a clean end. Non-trivial: >= 2 levels open at some point.");
+    ctx.meta("rule", "cases: byte streams parsed by the strict iterator from a slice; streams = every string over Σ up to length n, every document of T∘E (all known/unknown-size mixes, deep spines) and every single mutation (byte replaced by each Σ byte, byte deleted, truncation, every mid-document suffix at an element boundary), and documents longer than the 64 KiB buffer with long headers around the buffer boundary, whole and cut near the boundary, documents with a 20-45-byte payload inside open known-size masters read with capacities {0,16,17,24,32,default}; and over the second derived specification W (placeholder paths, a global master, a bounded global leaf): every string over Σ_W up to length n-1 and every document with all single mutations; every unmutated document of V and W additionally with each master id present, and all of them, buffered (a Full item counts as its Start, children and End; its children have no offsets, so only the structural rules apply inside it). Oracle: NestingChecker replays the Ok items: End matches innermost open Start or the next implied ancestor; ids known; ref_path_match(path, open chain) once the first non-global element fixed the position; element extents (header decoded by RefCodec at the reported offset) inside every enclosing known-size master; known-size End neither late nor early (early only at end of input); all masters closed at a clean end. Non-trivial: >= 2 levels open at some point.");
     ctx.meta("bounds", &format!("Σ* length <= {}; documents <= {} elements (+ spines), all single mutations; W: Σ_W* length <= {}, documents <= {} elements", n, doc_nodes, ctx.tier.pick(5, 6), ctx.tier.pick(4, 5)));
     ctx.meta("assumptions", "64 KiB tag-size limit on the mutation corpus (mutated size fields otherwise allocate gigabytes legitimately)");
     ctx.expect_nonzero("mid_document_starts");
     ctx.expect_nonzero("buffer_boundary_docs");
     ctx.expect_nonzero("w_strings");
     ctx.expect_nonzero("w_docs");
+    ctx.expect_nonzero("grown_buffer_docs");
     ctx.expect_nonzero("parses_with_buffered_masters");
     let cfg = Cfg::strict();
     let mut mcfg = Cfg::strict();
@@ -262,6 +263,20 @@ pub fn run(ctx: &mut Ctx) {
                     run_one::<V>(ctx, &rs, &bytes[..cut], &cfg, "buffer-boundary-doc-truncated");
                 }
             }
+        }
+    }
+    // a payload larger than the initial capacity inside open known-size masters (the buffer grows mid-document)
+    for (i, doc) in docs::grown_buffer_docs().into_iter().enumerate() {
+        if !ctx.mine(i as u64) {
+            continue;
+        }
+        let (bytes, _) = ref_encode(&doc);
+        if docs::doc_has_raw(&doc) {
+            continue; // strict mode
+        }
+        for cap in [Some(0usize), Some(16), Some(17), Some(24), Some(32), None] {
+            ctx.count("grown_buffer_docs", 1);
+            run_one::<V>(ctx, &rs, &bytes, &cfg.clone().with_cap(cap), "grown-buffer-doc");
         }
     }
     let p = DocParams { max_nodes: doc_nodes, globals: vec![ID_TAG, ID_VOID], exclude: vec![], unknown_subsets: true, devs: 1, payload_classes: false, big_payloads: false, noncanonical: false, width_devs: true, extras: true, all_widths: false };
